@@ -10,10 +10,11 @@ Definition obs_beq (a b : bool * list nat * list nat) : bool :=
   list_beq Nat.eqb (snd (fst a)) (snd (fst b)) &&
   list_beq Nat.eqb (snd a) (snd b).
 
+(* observe_ok: every reachable set used by `observe` carries its completeness certificate (c16_reach_complete) *)
 (* against the behaviour the property demands (nothing shared) *)
 Definition chk_rep (c : heap * call * (bool * list nat * list nat)) : bool :=
-  let '(h, cl, e) := c in obs_beq (observe Repaired h cl) e.
+  let '(h, cl, e) := c in obs_beq (observe Repaired h cl) e && observe_ok Repaired h cl.
 
 (* against the model of the CURRENT tree (known sharing classes F6 / F10 / F11) *)
 Definition chk_cur (c : heap * call * (bool * list nat * list nat)) : bool :=
-  let '(h, cl, e) := c in obs_beq (observe Current h cl) e.
+  let '(h, cl, e) := c in obs_beq (observe Current h cl) e && observe_ok Current h cl.
